@@ -35,6 +35,8 @@ CONFIGS = {
     # monitor control on top of must_if< Errors >::control (C05, C08)
     "mif4": ("cl0", ["MON_MUSTIF", "MON_VARIANT=4"]),
     "mif1": ("asan0", ["MON_MUSTIF", "MON_VARIANT=1"]),
+    "covmif": ("cl0", ["MON_CLIENT=1", "MON_MUSTIF", "MON_VARIANT=1"]),     # coverage<> around a control whose failure() raises
+    "treemif": ("cl0", ["MON_TREE", "MON_MUSTIF", "MON_VARIANT=0", "MON_SELV=1"]),   # parse_tree around such a control
     "ana": ("cl0", ["MON_ANA", "MON_VARIANT=0"]),      # analyze< G >() + fuel-limited monitored run on reference loop witnesses (C11)
     "lazy1": ("cl0", ["MON_VARIANT=1", "MON_LAZY=1"]),
     "lazy3": ("cl0", ["MON_VARIANT=3", "MON_LAZY=1"]),
